@@ -28,6 +28,8 @@ def c18(tier):
     ed.ed4(P, C)
     # the write wrappers release the FITS handle exactly once, also when the final close fails (ED-2: guard disarmed before the close)
     ed.run(P, C)
+    # a rejected fit releases what it had built: every rejection precedes the CHOLMOD workspace
+    ed.rh2(P, C)
     C.extra["units"] = sorted(P.units.keys())
     C.extra["functions_analysed"] = len(P.functions)
     return C.finish()
@@ -127,6 +129,7 @@ def c20(tier):
     uw.vg4(P, C)
     # a FITS handle opened by a failed operation is closed on every path (all memory *and* handles are returned)
     ed.rh1(P, C)
+    ed.rh2(P, C)
     # comparison is one of the operations of a history: it must be total (two empty tables)
     pm.es1(P, C)
     C.extra["units"] = sorted(P.units.keys())
@@ -157,6 +160,7 @@ def c13(tier):
     cw.cw1(P, C, only=("splinetable_glamfit",))
     cw.cw2(P, C, only=("splinetable_glamfit",))
     C.extra["units"] = sorted(P.units.keys())
+    sp.mm1(P, C)
     return C.finish()
 
 
@@ -315,6 +319,7 @@ def c02(tier):
     dp.cl4(P, C)
     dp.cl6(P, C)
     dp.cl8(P, C)
+    dp.cl9(P, C)
     # the evaluator's entry points are clones of the table's (same scratch precision, same kernels)
     dp.cl2(P, C)
     # the evaluator's derivative and gradient entry points reach the cores through the dispatch table
@@ -347,6 +352,8 @@ def c10(tier):
     sp.sp1(P, C, floor=3)
     sp.sp2(P, C)
     C.extra["units"] = sorted(P.units.keys())
+    sp.sp3(P, C)
+    sp.mm1(P, C)
     return C.finish()
 
 
@@ -370,8 +377,11 @@ def c11(tier):
     sp.sp2(P, C)
     # 'terminates': the one structural part — no trial step length 0 besides the reference
     sg.ls1(P, C)
+    # the pending-set bookkeeping moves whole elements
+    sp.mm1(P, C)
     C.extra["units"] = sorted(P.units.keys())
     C.extra["not_decided"] = ["KKT conditions", "termination", "nnls_lawson_hanson", "nnls_normal_block", "nnls_normal_block_updown"]
+    sp.sp3(P, C)
     return C.finish()
 
 
@@ -474,6 +484,7 @@ def c17(tier):
     cw.cw2(P, C, only=("splinetable_grideval",))
     C.extra["units"] = sorted(P.units.keys())
     C.extra["not_decided"] = ["numerical agreement with pointwise evaluation", "slicemultiply index arithmetic"]
+    ge.ge5(P, C)
     return C.finish()
 
 
